@@ -65,24 +65,26 @@ func verifHasDigest(k int) bool {
 	return k == verifKManifestRevision || k == verifKTagIndex || k == verifKLayerLink || k == verifKLayerData || k == verifKBlobData
 }
 
-func verifWantType(k int) (PathType, PathSubType) {
+// verifWantType: the classification ParsePath documents for each kind, as
+// the strings behind PathType / PathSubType.
+func verifWantType(k int) (string, string) {
 	switch k {
 	case verifKManifestRevision:
-		return _manifests, _revisions
+		return "_manifests", "revisions"
 	case verifKTagsDir, verifKTagCurrent, verifKTagIndex:
-		return _manifests, _tags
+		return "_manifests", "tags"
 	case verifKLayerLink:
-		return _layers, _link
+		return "_layers", "link"
 	case verifKLayerData:
-		return _layers, _data
+		return "_layers", "data"
 	case verifKBlobData:
-		return _blobs, _data
+		return "blobs", "data"
 	case verifKUploadData:
-		return _uploads, _data
+		return "_uploads", "data"
 	case verifKUploadStartedAt:
-		return _uploads, _startedat
+		return "_uploads", "startedat"
 	}
-	return _uploads, _hashstates
+	return "_uploads", "hashstates"
 }
 
 func verifAlnum(c byte) bool {
@@ -205,8 +207,8 @@ func verifCheckBuilt(p verifParts, checkRepo bool) {
 	pt, st, err := ParsePath(path)
 	verif.Assert("parse-ok", err == nil)
 	wt, ws := verifWantType(p.kind)
-	verif.Assert("path-type", pt == wt)
-	verif.Assert("path-subtype", st == ws)
+	verif.Assert("path-type", string(pt) == wt)
+	verif.Assert("path-subtype", string(st) == ws)
 	if checkRepo && verifHasRepo(p.kind) {
 		repo, err := GetRepo(path)
 		verif.Assert("repo-ok", err == nil)
